@@ -15,6 +15,33 @@ HY = 'enspara/cluster/hybrid.py'
 CU = 'enspara/cluster/util.py'
 
 
+_UFUNC_CMP = {'less': ast.Lt, 'less_equal': ast.LtE, 'greater': ast.Gt, 'greater_equal': ast.GtE}
+
+
+def _mask_compare(v):
+    """The elementwise comparison behind a selection value: the comparison
+    itself, `np.less(a, b)` & co., or the index form of such a mask
+    (`np.where(m)[0]`, `np.nonzero(m)[0]`, `np.where(m)`, `np.flatnonzero(m)`):
+    all select the same cells when used as a store index of a 1-d array."""
+    for _ in range(3):
+        if isinstance(v, ast.Subscript) and isinstance(v.slice, ast.Constant) and v.slice.value == 0 \
+                and isinstance(v.value, ast.Call):
+            v = v.value
+        if isinstance(v, ast.Call) and call_name(v) in ('np.where', 'np.nonzero', 'np.flatnonzero', 'np.argwhere') \
+                and len(v.args) == 1 and not v.keywords:
+            if call_name(v) == 'np.argwhere':
+                return None
+            v = v.args[0]
+            continue
+        break
+    if isinstance(v, ast.Call) and (call_name(v) or '').startswith('np.') and \
+            call_name(v)[3:] in _UFUNC_CMP and len(v.args) == 2 and not v.keywords:
+        return ast.Compare(left=v.args[0], ops=[_UFUNC_CMP[call_name(v)[3:]]()], comparators=[v.args[1]])
+    if isinstance(v, ast.Compare) and len(v.ops) == 1:
+        return v
+    return None
+
+
 def find_running_min_commits(mod, fn):
     """Find instances of the running-minimum commit idiom in fn:
 
@@ -31,8 +58,8 @@ def find_running_min_commits(mod, fn):
         if not (isinstance(n, ast.Assign) and len(n.targets) == 1
                 and isinstance(n.targets[0], ast.Name)):
             continue
-        v = n.value
-        if not (isinstance(v, ast.Compare) and len(v.ops) == 1):
+        v = _mask_compare(n.value)
+        if v is None:
             continue
         c = Cmp(v.left, type(v.ops[0]), v.comparators[0])
         less = c.as_less()
@@ -67,6 +94,38 @@ def find_running_min_commits(mod, fn):
     return out
 
 
+def _written_otherwise(fi, fn, name, after, known_stores):
+    """Is the array `name` written (subscript store, rebinding, mutating call,
+    out=/where= argument, passed to a helper) at a statement that can execute
+    after `after` and is not one of `known_stores`?"""
+    cfg = fi.cfg
+    for s in walk_local(fn):
+        if not isinstance(s, ast.stmt) or s is after or any(s is k for k in known_stores):
+            continue
+        if s not in cfg.succ or not cfg.reachable(after, s):
+            continue
+        if isinstance(s, (ast.Assign, ast.AugAssign, ast.AnnAssign)):
+            tgts = s.targets if isinstance(s, ast.Assign) else [s.target]
+            for t in tgts:
+                for x in ast.walk(t):
+                    if isinstance(x, ast.Name) and x.id == name:
+                        return True
+        if isinstance(s, (ast.Assign, ast.AugAssign, ast.AnnAssign, ast.Expr)) and getattr(s, 'value', None) is not None:
+            for c in ast.walk(s.value):
+                if isinstance(c, ast.Call) and call_name(c) not in ('len', 'print') and (
+                        any(isinstance(a, ast.Name) and a.id == name for a in c.args) or
+                        any(isinstance(k.value, ast.Name) and k.value.id == name for k in c.keywords) or
+                        (isinstance(c.func, ast.Attribute) and isinstance(c.func.value, ast.Name)
+                         and c.func.value.id == name and c.func.attr in (
+                             'fill', 'put', 'itemset', 'sort', 'partition', 'resize', '__setitem__'))):
+                    # (logging calls only read their arguments)
+                    cn = call_name(c) or ''
+                    if cn.split('.')[0] in ('logger', 'logging', 'warnings'):
+                        continue
+                    return True
+    return False
+
+
 def check_running_min_commit(ck, rule, mod, qual, require_strict,
                              label_kind, min_instances=1):
     """D2 of C01 at one function.  label_kind: 'len-before-append' or
@@ -76,6 +135,12 @@ def check_running_min_commit(ck, rule, mod, qual, require_strict,
     fi = finfo(mod, fn)
     inst = find_running_min_commits(mod, fn)
     good = 0
+    state = set(params(fn))
+    for r in returns_of(fn):
+        rv = fi.resolve(r.value) if isinstance(r.value, ast.Name) else r.value
+        if rv is not None:
+            state |= {x.id for x in (rv.elts if isinstance(rv, ast.Tuple) else [rv])
+                      if isinstance(x, ast.Name)}
     for i in inst:
         mask, new, cur = i['mask'], i['new'], i['cur']
         desc = '%s; stores under it: %s' % (u(i['mask_stmt']), '; '.join(
@@ -104,24 +169,43 @@ def check_running_min_commit(ck, rule, mod, qual, require_strict,
             else:
                 label_store = (st, t) if label_store is None else label_store
         if dist_store is None:
-            ck.bad(rule + '.paired', mod, i['mask_stmt'], qual, desc,
-                   'mask `%s` selects frames whose candidate distance `%s` beats '
-                   '`%s`, but `%s[%s]` is never updated under it: labels and '
-                   'distances go out of step' % (mask, new, cur, cur, mask))
+            if _written_otherwise(fi, fn, cur, i['mask_stmt'], [st for st, _ in i['stores']]):
+                ck.missing(rule + '.paired', '%s: `%s` is updated after `%s` in a way that is not a store '
+                           'under the mask `%s`' % (qual, cur, u(i['mask_stmt'])[:60], mask))
+            else:
+                ck.bad(rule + '.paired', mod, i['mask_stmt'], qual, desc,
+                       'mask `%s` selects frames whose candidate distance `%s` beats '
+                       '`%s`, but `%s[%s]` is never updated under it: labels and '
+                       'distances go out of step' % (mask, new, cur, cur, mask))
         else:
             st, t = dist_store
             v = st.value
             okv = isinstance(v, ast.Subscript) and u(v.value) == new and \
                 isinstance(v.slice, ast.Name) and v.slice.id == mask and \
                 fi.same_value(v.slice, t.slice)
-            ck.check(okv, rule + '.paired', mod, st, qual, u(st),
-                     'current distances take the candidate values under the same mask',
-                     'the value stored into `%s[%s]` must be `%s[%s]` (the array '
-                     'that was compared, under the same mask)' % (cur, mask, new, mask))
+            if okv:
+                ck.ok(rule + '.paired', mod, st, u(st),
+                      'current distances take the candidate values under the same mask')
+            else:
+                # a named temporary, or an equal value under the mask (where new < cur)
+                from ..match import classify
+                forms = ['%s[%s]' % (new, mask), 'np.minimum(%s, %s)[%s]' % (new, cur, mask),
+                         'np.minimum(%s, %s)[%s]' % (cur, new, mask), 'np.fmin(%s, %s)[%s]' % (new, cur, mask),
+                         'np.fmin(%s, %s)[%s]' % (cur, new, mask)]
+                ck.decide(classify(fi.expand(v, stop=(mask, new, cur), strict=False), forms, scope={mask, new, cur}),
+                          rule + '.paired', mod, st, qual, u(st),
+                          'current distances take the candidate values under the same mask',
+                          'the value stored into `%s[%s]` must be `%s[%s]` (the array '
+                          'that was compared, under the same mask)' % (cur, mask, new, mask))
         if label_store is None:
-            ck.bad(rule + '.paired', mod, i['mask_stmt'], qual, desc,
-                   'distances are committed under mask `%s` but no label array '
-                   'is updated under the same mask' % mask)
+            labs = [nm for nm in state if nm not in (cur, new, mask)]
+            if any(_written_otherwise(fi, fn, nm, i['mask_stmt'], []) for nm in labs):
+                ck.missing(rule + '.paired', '%s: no label store under the mask `%s`, but a state array is updated '
+                           'after it in an unrecognised way' % (qual, mask))
+            else:
+                ck.bad(rule + '.paired', mod, i['mask_stmt'], qual, desc,
+                       'distances are committed under mask `%s` but no label array '
+                       'is updated under the same mask' % mask)
         else:
             st, t = label_store
             lab = st.value
@@ -137,9 +221,31 @@ def check_running_min_commit(ck, rule, mod, qual, require_strict,
                     break
                 lab, ev, hops = val, site, hops + 1
             if label_kind == 'len-before-append':
+                # len(L) + c: the list length at the evaluation point, shifted by a constant
+                offset = 0
+                if isinstance(lab, ast.BinOp) and isinstance(lab.op, (ast.Add, ast.Sub)) and \
+                        isinstance(lab.right, ast.Constant) and isinstance(lab.right.value, int) and \
+                        not isinstance(lab.right.value, bool):
+                    offset = lab.right.value if isinstance(lab.op, ast.Add) else -lab.right.value
+                    lab = lab.left
                 ok_label = isinstance(lab, ast.Call) and call_name(lab) == 'len' \
-                    and len(lab.args) == 1 and isinstance(lab.args[0], ast.Name)
-                if ok_label:
+                    and len(lab.args) == 1 and isinstance(lab.args[0], ast.Name) \
+                    and not lab.keywords
+                if ok_label and offset != 0:
+                    lst = lab.args[0].id
+                    appends = [c for c in calls_in(fn, '.append')
+                               if isinstance(c.func.value, ast.Name)
+                               and c.func.value.id == lst]
+                    cfg = fi.cfg
+                    before = [c for c in appends if cfg.reachable(fi.stmt(c), ev)]
+                    sure = [c for c in before if cfg.dominates(fi.stmt(c), ev)
+                            and not cfg.reachable(fi.stmt(c), fi.stmt(c))]
+                    ck.check(len(before) == len(sure) == -offset and appends, rule + '.label', mod, st, qual, u(st),
+                             'label = len(%s) %+d evaluated after %d append(s): the length before the new centre '
+                             'was appended' % (lst, offset, len(sure)),
+                             'label must be the centre list length BEFORE the new centre is appended; '
+                             '`len(%s) %+d` is evaluated after %d append(s)' % (lst, offset, len(before)))
+                elif ok_label:
                     lst = lab.args[0].id
                     # the list must be appended to AFTER the label is
                     # evaluated, on the way to the return, never before
@@ -158,8 +264,15 @@ def check_running_min_commit(ck, rule, mod, qual, require_strict,
                              'centre is appended (append found before the label '
                              'store: %d, after: %d)' % (len(before), len(after)))
                 else:
-                    ck.bad(rule + '.label', mod, st, qual, u(st),
-                           'label stored under the commit mask is not len(<centre index list>)')
+                    # another function of the lists that grow by one centre per
+                    # call is a wrong label; anything else is not recognised
+                    from ..match import classify
+                    grown = sorted({c.func.value.id for c in calls_in(fn, '.append')
+                                    if isinstance(c.func.value, ast.Name)})
+                    v = classify(fi.expand(lab), ['len(%s)' % g for g in grown] or ['len(_L)'],
+                                 scope=set(grown) | set(params(fn)))
+                    ck.decide(v if v[0] != 'match' else 'far', rule + '.label', mod, st, qual, u(st), '',
+                              'label stored under the commit mask is not len(<centre index list>)')
             else:   # enumerate-index
                 _check_sweep_label(ck, rule, mod, qual, fi, st, lab, new)
             # same mask value on both stores
